@@ -150,3 +150,95 @@ def angle_form(case, name='angle_form'):
         return Angle(np.rad2deg(float(t_rad)), 'deg')
     f.kind = kind
     return f
+
+
+# ----------------------------------------------------------------------
+# second list (tools/generic_axes2.txt); counters are `axis2_*`
+# ----------------------------------------------------------------------
+DTYPES2 = ['float32', 'float16', 'uint8', 'uint16', 'uint32_big', 'int16_limit', 'int64_big', 'uint64']
+
+
+def dtype_kind(case, name, p_plain=0.55, allow=None, extra=()):
+    """DTYPE KIND of an image-like input.  Returns f(a, mag): `a` is a float64 array whose natural scale is
+    `mag`; the result holds numbers representable in the drawn dtype (both the live object and the fresh
+    twins receive the same array, so the oracle stays exact)."""
+    rng = case.rng
+    kinds = [k for k in list(DTYPES2) + list(extra) if allow is None or k in allow]
+    kind = 'float64' if (rng.random() < p_plain or not kinds) else kinds[int(rng.integers(0, len(kinds)))]
+    case.note(f'axis2_dtype_{name}:{kind}')
+
+    def f(a, mag=1.0):
+        if a is None or kind == 'float64':
+            return a
+        b = np.asarray(a, dtype=float) / mag
+        b = np.nan_to_num(b, nan=0.0, posinf=0.0, neginf=0.0)
+        if kind == 'float32':
+            return np.asarray(a).astype(np.float32)
+        if kind == 'float16':
+            return b.astype(np.float16)
+        if kind == 'uint8':
+            return np.clip(np.round(b), 0, 255).astype(np.uint8)
+        if kind == 'uint16':
+            return np.clip(np.round(b * 20), 0, 65535).astype(np.uint16)
+        if kind == 'uint32_big':
+            return (np.clip(np.round(b * 20), 0, 1e6) + 2 ** 31).astype(np.uint32)
+        if kind == 'int16_limit':
+            return np.clip(np.round(b * 60), -32768, 32767).astype(np.int16)
+        if kind == 'int64_big':
+            return (np.clip(np.round(b * 20), -1e6, 1e6) + 2 ** 53).astype(np.int64)
+        if kind == 'uint64':
+            return np.clip(np.round(b * 20), 0, 1e9).astype(np.uint64)
+        if kind == 'bool':
+            return b > np.median(b)
+        raise RuntimeError(kind)
+    f.kind = kind
+    return f
+
+
+def mask_kind(case, name):
+    """SET-LIKE: a mask that is all False / all True / absent / random."""
+    rng = case.rng
+    kind = ['random', 'random', 'random', 'none', 'all_false', 'all_true'][int(rng.integers(0, 6))]
+    case.note(f'axis2_mask_{name}:{kind}')
+
+    def f(shape, frac=0.05):
+        if kind == 'none':
+            return None
+        if kind == 'all_false':
+            return np.zeros(shape, bool)
+        if kind == 'all_true':
+            return np.ones(shape, bool)
+        return rng.random(shape) < frac
+    f.kind = kind
+    return f
+
+
+EDGES = ['interior', 'interior', 'interior', 'left', 'right', 'bottom', 'top', 'corner_ll', 'corner_lr', 'corner_ul',
+         'corner_ur']
+
+
+def edge_position(case, name, shape, margin=8.0, reach=2.5):
+    """ONE-SIDED EDGES / HALF-INTEGER: an (x, y) position in the interior or near / across exactly one border or
+    corner, optionally snapped to exact integers / half-integers of even or odd k."""
+    rng = case.rng
+    ny, nx = shape
+    edge = EDGES[int(rng.integers(0, len(EDGES)))]
+    case.note(f'axis2_edge_{name}:{edge}')
+    x = float(rng.uniform(min(margin, nx / 2), max(nx - 1 - margin, nx / 2)))
+    y = float(rng.uniform(min(margin, ny / 2), max(ny - 1 - margin, ny / 2)))
+    if edge in ('left', 'corner_ll', 'corner_ul'):
+        x = float(rng.uniform(-reach, reach))
+    if edge in ('right', 'corner_lr', 'corner_ur'):
+        x = float(nx - 1 + rng.uniform(-reach, reach))
+    if edge in ('bottom', 'corner_ll', 'corner_lr'):
+        y = float(rng.uniform(-reach, reach))
+    if edge in ('top', 'corner_ul', 'corner_ur'):
+        y = float(ny - 1 + rng.uniform(-reach, reach))
+    snap = ['none', 'none', 'integer', 'half'][int(rng.integers(0, 4))]
+    if snap == 'integer':
+        x, y = float(np.round(x)), float(np.round(y))
+    elif snap == 'half':
+        x, y = float(np.floor(x) + 0.5), float(np.floor(y) + 0.5)
+    if snap != 'none':
+        case.note(f'axis2_halfint_{name}:{snap}_{"even" if int(np.floor(x)) % 2 == 0 else "odd"}')
+    return x, y, edge
